@@ -661,6 +661,246 @@ def gen_tl(rng, feats):
     return {'classes': classes, 'preds': preds, 'main': main}
 
 
+# ------------------------------------------------------------------------------------------------
+# directed families (produced in every run)
+# ------------------------------------------------------------------------------------------------
+def directed_boundary():
+    """C01, sharing of relation literals in the arithmetic theory: a relation `e op1 c` is first only MENTIONED (boolean initialiser,
+    disjunct, premise of an implication), later a relation `e op2 c` over the same linear expression and the same constant is asserted
+    (all 16 ordered pairs of < <= >= >, i.e. complementary, identical and shifted-by-epsilon relations in both orders), and the other
+    constraints push e exactly onto c. Either the problem is unsatisfiable (and must not be solved) or the values must respect every
+    relation, the boolean initialised with the first one included."""
+    out = []
+    x, y, z = var('x'), var('y'), var('z')
+    exprs = [x, ('add', [x, y]), ('sub', [x, ('mul', [y, num(2, True)])]), ('add', [y, x]), ('add', [x, y, z])]
+    c = num(3, False)
+    ops = ['lt', 'le', 'ge', 'gt']
+    k = 0
+    for op1 in ops:
+        for op2 in ops:
+            for force in ('both', 'side'):
+                e = exprs[k % len(exprs)]
+                e2 = exprs[0 if k % len(exprs) == 0 else (3 if k % len(exprs) == 1 and k % 2 else k % len(exprs))]   # sometimes y + x for x + y
+                ctx = ('init', 'disj', 'imp')[k % 3]
+                k += 1
+                main = [('local', 'real', 'x', None), ('local', 'real', 'y', None), ('local', 'real', 'z', None)]
+                first = (op1, e, c)
+                if ctx == 'init':
+                    main.append(('local', 'bool', 'p', first))
+                elif ctx == 'disj':
+                    main.append(('local', 'bool', 'b', None))
+                    main.append(('disj', 'bd%d' % k, [[('expr', first)], [('expr', var('b'))]]))
+                else:
+                    main += [('local', 'bool', 't', None), ('local', 'bool', 'q', None), ('expr', var('t')),
+                             ('expr', ('imp', ('and', [var('t'), first]), var('q')))]
+                second = (op2, e2, c)
+                if k % 4 == 0:
+                    main.append(('local', 'bool', 'r', second))
+                    main.append(('expr', var('r')))
+                elif k % 7 == 0 and op2 in ('lt', 'gt'):
+                    # mirrored sides: c op' e
+                    main.append(('expr', ({'lt': 'gt', 'gt': 'lt'}[op2], c, e2)))
+                else:
+                    main.append(('expr', second))
+                if force == 'both':
+                    main += [('expr', ('ge', e, c)), ('expr', ('le', e, c))]
+                else:
+                    main.append(('expr', ('ge', e, c)) if op2 in ('lt', 'le') else ('expr', ('le', e, c)))
+                prog = {'classes': [], 'preds': [], 'main': main}
+                out.append((prog, A.pp_program(prog)))
+    # targeted: the later relation is stricter than / complementary to / identical with the one mentioned first and the only forcing
+    # constraint puts e on the boundary, so that re-using the first literal (or its negation) for the second one yields e = c
+    k = 0
+    for ctx in ('init', 'disj', 'imp'):
+        for e in exprs[:3]:
+            for (op1, op2, f) in (('ge', 'gt', 'le'), ('le', 'lt', 'ge'), ('gt', 'lt', 'ge'), ('lt', 'gt', 'le'),
+                                  ('gt', 'ge', 'le'), ('lt', 'le', 'ge'), ('gt', 'gt', 'le'), ('lt', 'lt', 'ge')):
+                k += 1
+                main = [('local', 'real', 'x', None), ('local', 'real', 'y', None)]
+                first = (op1, e, c)
+                if ctx == 'init':
+                    main.append(('local', 'bool', 'p', first))
+                elif ctx == 'disj':
+                    main.append(('local', 'bool', 'b', None))
+                    main.append(('disj', 'bt%d' % k, [[('expr', first)], [('expr', var('b'))]]))
+                else:
+                    main += [('local', 'bool', 't', None), ('local', 'bool', 'q', None), ('expr', var('t')),
+                             ('expr', ('imp', ('and', [var('t'), first]), var('q')))]
+                if k % 3 == 0:
+                    main += [('local', 'bool', 'r', (op2, e, c)), ('expr', var('r'))]
+                else:
+                    main.append(('expr', (op2, e, c)))
+                main.append(('expr', (f, e, c)))
+                prog = {'classes': [], 'preds': [], 'main': main}
+                out.append((prog, A.pp_program(prog)))
+    # the negation of a mentioned strict relation is the non strict complementary one
+    for op1, neg_ok in (('gt', 'le'), ('lt', 'ge'), ('ge', 'lt'), ('le', 'gt')):
+        e = exprs[1]
+        main = [('local', 'real', 'x', None), ('local', 'real', 'y', None), ('local', 'bool', 'p', (op1, e, c)), ('expr', ('not', var('p'))),
+                ('expr', ('ge', e, c)) if neg_ok in ('le', 'lt') else ('expr', ('le', e, c))]
+        prog = {'classes': [], 'preds': [], 'main': main}
+        out.append((prog, A.pp_program(prog)))
+    return out
+
+
+def directed_hierarchy():
+    """C03, unification across a predicate hierarchy: goals of a super-predicate while an atom of a sub-predicate with equal inherited
+    arguments exists (and the other way round). A goal may only be unified with an atom of ITS OWN predicate; otherwise it is active
+    and its rule (subgoals included) is in the plan."""
+    out = []
+    one, two = num(1, False), num(2, False)
+
+    def base(owner=None, pre=""):
+        O = {'name': pre + 'Order', 'owner': owner, 'params': [('q', 'real')], 'supers': [], 'body': []}
+        S = {'name': pre + 'Stock', 'owner': owner, 'params': [('q', 'real')], 'supers': [],
+             'body': [('formula', False, 'o', [], pre + 'Order', [('q', var('q'))]), ('expr', ('ge', var('q'), num(0, False)))]}
+        R = {'name': pre + 'Reserved', 'owner': owner, 'params': [('owner', 'real')], 'supers': [pre + 'Stock'],
+             'body': [('expr', ('ge', var('owner'), num(0, False)))]}
+        T = {'name': pre + 'Pinned', 'owner': owner, 'params': [('pin', 'real')], 'supers': [pre + 'Reserved'], 'body': []}
+        return O, S, R, T
+    O, S, R, T = base()
+    preds = [O, S, R, T]
+    mains = [
+        # goal of the super-predicate, fact of the sub-predicate with the same inherited argument
+        [('formula', True, 'r', [], 'Reserved', [('q', one), ('owner', two)]), ('formula', False, 's', [], 'Stock', [('q', one)])],
+        # ... the sub-predicate atom is an (already expanded) goal
+        [('formula', False, 'r', [], 'Reserved', [('q', one), ('owner', two)]), ('formula', False, 's', [], 'Stock', [('q', one)])],
+        # ... the goal leaves its argument free
+        [('formula', True, 'r', [], 'Reserved', [('q', one), ('owner', two)]), ('formula', False, 's', [], 'Stock', [])],
+        # goal of the sub-predicate, fact of the super-predicate
+        [('formula', True, 's', [], 'Stock', [('q', one)]), ('formula', False, 'r', [], 'Reserved', [('q', one), ('owner', two)])],
+        [('formula', True, 's', [], 'Stock', [('q', one)]), ('formula', False, 'r', [], 'Reserved', [('q', one)])],
+        # three levels
+        [('formula', True, 't', [], 'Pinned', [('q', one), ('owner', two), ('pin', one)]), ('formula', False, 's', [], 'Stock', [('q', one)]),
+         ('formula', False, 'r', [], 'Reserved', [('q', one), ('owner', two)])],
+        # a legitimate unification next to the illegitimate candidate
+        [('formula', True, 'r', [], 'Reserved', [('q', one), ('owner', two)]), ('formula', True, 's0', [], 'Stock', [('q', one)]),
+         ('formula', False, 's', [], 'Stock', [('q', one)]), ('formula', False, 's2', [], 'Stock', [('q', two)])],
+        # two goals of the super-predicate and two atoms of sub-predicates
+        [('formula', False, 'r', [], 'Reserved', [('q', two), ('owner', one)]), ('formula', True, 't', [], 'Pinned', [('q', one), ('owner', one), ('pin', two)]),
+         ('formula', False, 's', [], 'Stock', [('q', one)]), ('formula', False, 's2', [], 'Stock', [('q', two)])],
+    ]
+    for m in mains:
+        prog = {'classes': [], 'preds': preds, 'main': m}
+        out.append((prog, A.pp_program(prog)))
+    # the same hierarchy inside a class (the scope tau takes part in the comparison)
+    O, S, R, T = base('HK', 'HK:')
+    cls = {'name': 'HK', 'kind': 'class', 'supers': [], 'fields': [], 'ctors': []}
+    for m in ([('new', 'HK', 'k0', []), ('formula', True, 'r', ['k0'], 'HK:Reserved', [('q', one), ('owner', two)]), ('formula', False, 's', ['k0'], 'HK:Stock', [('q', one)])],
+              [('new', 'HK', 'k0', []), ('new', 'HK', 'k1', []), ('formula', False, 'r', ['k0'], 'HK:Reserved', [('q', one), ('owner', two)]),
+               ('local', ('ref', 'HK'), 'kv', None), ('formula', False, 's', ['kv'], 'HK:Stock', [('q', one)])]):
+        prog = {'classes': [cls], 'preds': [O, S, R, T], 'main': m}
+        out.append((prog, A.pp_program(prog)))
+    return out
+
+
+def directed_chain():
+    """C06, predicate chains of depth >= 2 whose intermediate predicate has an empty body and is the only path to Interval / Impulse,
+    with goals (direct and as subgoals) and facts, plain and inside an Agent class; the requested values violate the temporal rule
+    unless it is applied: the problem is unsolvable or the atom comes out well-formed."""
+    out = []
+    R = lambda v: num(v, False)
+    P = {'name': 'CP', 'owner': None, 'params': [], 'supers': ['Interval'], 'body': []}
+    Q = {'name': 'CQ', 'owner': None, 'params': [('k', 'real')], 'supers': ['CP'], 'body': [('expr', ('ge', var('k'), R(0)))]}
+    Q2 = {'name': 'CQ2', 'owner': None, 'params': [], 'supers': ['CQ'], 'body': []}
+    W = {'name': 'CW', 'owner': None, 'params': [], 'supers': [], 'body': [('formula', False, 'q', [], 'CQ', [('start', R(5)), ('end', R(3))])]}
+    W2 = {'name': 'CW2', 'owner': None, 'params': [], 'supers': ['Interval'],
+          'body': [('formula', False, 'q', [], 'CQ', [('end', var('start'))]), ('expr', ('ge', var('q', 'start'), R(2)))]}
+    W3 = {'name': 'CW3', 'owner': None, 'params': [], 'supers': [], 'body': [('formula', False, 'q', [], 'CQ2', []), ('expr', ('eq', var('q', 'start'), R(7)))]}
+    MP = {'name': 'CM', 'owner': None, 'params': [], 'supers': ['Impulse'], 'body': []}
+    MQ = {'name': 'CMQ', 'owner': None, 'params': [('k', 'real')], 'supers': ['CM'], 'body': []}
+    preds = [P, Q, Q2, W, W2, W3, MP, MQ]
+    g = lambda *path: var('g', *path)
+    mains = []
+    for isfact in (False, True):
+        for pred in ('CQ', 'CQ2'):
+            mains += [
+                [('formula', isfact, 'g', [], pred, [('start', R(5)), ('end', R(3))])],
+                [('formula', isfact, 'g', [], pred, []), ('expr', ('eq', g('start'), R(7)))],
+                [('formula', isfact, 'g', [], pred, []), ('expr', ('le', g('end'), ('sub', [g('start'), R(1)])))],
+                [('formula', isfact, 'g', [], pred, []), ('expr', ('le', g('duration'), ('neg', R(1))))],
+                [('formula', isfact, 'g', [], pred, []), ('expr', ('ge', g('end'), ('add', [var('horizon'), R(1)])))],
+                [('formula', isfact, 'g', [], pred, [('start', R(4))]), ('expr', ('ge', g('duration'), ('add', [('sub', [g('end'), g('start')]), R(1)])))],
+            ]
+        mains += [
+            [('formula', isfact, 'g', [], 'CMQ', [('at', R(9))]), ('expr', ('le', var('horizon'), R(5)))],
+            [('formula', isfact, 'g', [], 'CMQ', []), ('expr', ('eq', g('at'), R(9)))],
+            [('formula', isfact, 'g', [], 'CMQ', []), ('expr', ('le', g('at'), ('sub', [var('origin'), R(1)])))],
+        ]
+    mains += [[('formula', False, 'w', [], 'CW', [])], [('formula', False, 'w', [], 'CW2', [])], [('formula', False, 'w', [], 'CW3', [])],
+              [('formula', False, 'w', [], 'CW2', []), ('expr', ('le', var('w', 'start'), R(1)))]]
+    for m in mains:
+        prog = {'classes': [], 'preds': preds, 'main': m}
+        out.append((prog, A.pp_program(prog)))
+    # inside an Agent class: Snap : Act : Impulse,  Job : Shift : Interval
+    ag = {'name': 'CAg', 'kind': 'class', 'supers': ['Agent'], 'fields': [], 'ctors': []}
+    act = {'name': 'CAg:Act', 'owner': 'CAg', 'params': [], 'supers': ['Impulse'], 'body': []}
+    snap = {'name': 'CAg:Snap', 'owner': 'CAg', 'params': [('k', 'real')], 'supers': ['CAg:Act'], 'body': [('expr', ('ge', var('k'), R(0)))]}
+    shift = {'name': 'CAg:Shift', 'owner': 'CAg', 'params': [], 'supers': ['Interval'], 'body': []}
+    job = {'name': 'CAg:Job', 'owner': 'CAg', 'params': [], 'supers': ['CAg:Shift'],
+           'body': [('formula', False, 'sn', [], 'CAg:Snap', [('at', var('start'))])]}
+    apreds = [act, snap, shift, job]
+    amains = []
+    for isfact in (False, True):
+        amains += [
+            [('formula', isfact, 'g', ['a'], 'CAg:Snap', [('at', R(9))]), ('expr', ('le', var('horizon'), R(5)))],
+            [('formula', isfact, 'g', ['a'], 'CAg:Snap', []), ('expr', ('eq', g('at'), R(9)))],
+            [('formula', isfact, 'g', ['a'], 'CAg:Snap', []), ('expr', ('ge', g('at'), ('add', [var('horizon'), R(1)])))],
+            [('formula', isfact, 'g', ['a'], 'CAg:Job', [('start', R(5)), ('end', R(3))])],
+            [('formula', isfact, 'g', ['a'], 'CAg:Job', []), ('expr', ('eq', g('start'), R(6)))],
+            [('formula', isfact, 'g', ['a'], 'CAg:Job', []), ('expr', ('le', g('end'), ('sub', [g('start'), R(1)])))],
+        ]
+    for m in amains:
+        prog = {'classes': [ag], 'preds': apreds, 'main': [('new', 'CAg', 'a', [])] + m}
+        out.append((prog, A.pp_program(prog)))
+    return out
+
+
+def directed_narrowing():
+    """C17, an object VARIABLE declared with a strict supertype of a parameter's type is handed in as argument: after the formula the
+    variable ranges over the instances of the parameter's type and of its subtypes only (Item <- Crate <- FragileCrate, Item <- Pallet;
+    predicate Grasp(Crate c))."""
+    out = []
+    cls = [{'name': 'Item', 'kind': 'class', 'supers': [], 'fields': [('w', 'real', None)], 'ctors': []},
+           {'name': 'Crate', 'kind': 'class', 'supers': ['Item'], 'fields': [], 'ctors': []},
+           {'name': 'FragileCrate', 'kind': 'class', 'supers': ['Crate'], 'fields': [], 'ctors': []},
+           {'name': 'Pallet', 'kind': 'class', 'supers': ['Item'], 'fields': [], 'ctors': []},
+           {'name': 'Arm', 'kind': 'class', 'supers': [], 'fields': [], 'ctors': []}]
+    grasp = {'name': 'Grasp', 'owner': None, 'params': [('c', ('ref', 'Crate'))], 'supers': [], 'body': []}
+    use = {'name': 'Use', 'owner': None, 'params': [('it', ('ref', 'Item'))], 'supers': [], 'body': [('formula', False, 'gr', [], 'Grasp', [('c', var('it'))])]}
+    lift = {'name': 'Arm:Lift', 'owner': 'Arm', 'params': [('f', ('ref', 'FragileCrate'))], 'supers': [], 'body': []}
+    carry = {'name': 'Arm:Carry', 'owner': 'Arm', 'params': [('c', ('ref', 'Crate'))], 'supers': [],
+             'body': [('formula', False, 'l', [], 'Arm:Lift', [('f', var('c'))])]}
+    preds = [grasp, use, lift, carry]
+    inst = [('new', 'Item', 'i0', []), ('new', 'Crate', 'c0', []), ('new', 'FragileCrate', 'f0', []), ('new', 'Pallet', 'p0', []), ('new', 'Arm', 'arm', [])]
+    X = ('local', ('ref', 'Item'), 'x', None)
+    for isfact in (True, False):
+        G = ('formula', isfact, 'g', [], 'Grasp', [('c', var('x'))])
+        for extra in ([], [('expr', ('eq', var('x'), var('f0')))], [('expr', ('eq', var('x'), var('i0')))], [('expr', ('eq', var('x'), var('p0')))],
+                      [('expr', ('ne', var('x'), var('c0')))], [('expr', ('ne', var('x'), var('f0')))],
+                      [('expr', ('ne', var('x'), var('c0'))), ('expr', ('ne', var('x'), var('f0')))]):
+            prog = {'classes': cls, 'preds': preds, 'main': inst + [X, G] + extra}
+            out.append((prog, A.pp_program(prog)))
+        # the constraint on the variable comes BEFORE the formula
+        prog = {'classes': cls, 'preds': preds, 'main': inst + [X, ('expr', ('ne', var('x'), var('c0'))), G]}
+        out.append((prog, A.pp_program(prog)))
+        # more instances created after the variable do not enter its domain
+        prog = {'classes': cls, 'preds': preds, 'main': inst + [X, ('new', 'Crate', 'c1', []), G, ('expr', ('ne', var('x'), var('f0')))]}
+        out.append((prog, A.pp_program(prog)))
+    # through a rule: the parameter of Use is an Item (variable or existential), narrowed by the subgoal under the rule's guard
+    for m in ([X, ('formula', False, 'u', [], 'Use', [('it', var('x'))])],
+              [('formula', False, 'u', [], 'Use', [])],
+              [X, ('formula', False, 'u', [], 'Use', [('it', var('x'))]), ('expr', ('ne', var('x'), var('c0')))],
+              [X, ('formula', False, 'u', [], 'Use', [('it', var('x'))]), ('expr', ('eq', var('x'), var('p0')))],
+              # two narrowings in a row: Item -> Crate (Carry) -> FragileCrate (Lift, in the rule)
+              [X, ('formula', False, 'cy', ['arm'], 'Arm:Carry', [('c', var('x'))])],
+              [('local', ('ref', 'Crate'), 'y', None), ('formula', False, 'cy', ['arm'], 'Arm:Carry', [('c', var('y'))])],
+              [X, ('formula', True, 'cy', ['arm'], 'Arm:Carry', [('c', var('x'))])]):
+        prog = {'classes': cls, 'preds': preds, 'main': inst + m}
+        out.append((prog, A.pp_program(prog)))
+    return out
+
+
 def directed_temporal():
     """Problems aimed at each conjunct of the temporal rules: on a correct planner they are unsolvable; if one of the
     constraints of Interval / Impulse is lost they become solvable with an ill-formed active atom (which the checker rejects)."""
